@@ -240,11 +240,16 @@ def run(ctx):
     with ThreadPoolExecutor(max_workers=vlib.NPROC) as ex:
         preps = list(ex.map(prep, enumerate(chosen)))
     deploy_crashes = []
+    n_deployed = 0
     for k, sid, path, repl, shared, user, rc, out in preps:
         if rc != 0 and ("runtime error" in out or "AddressSanitizer" in out or rc < 0 or rc > 1):
             deploy_crashes.append({"schema": sid, "path": list(path or []), "replacement": repl, "rc": rc, "tail": out[-600:]})
         if not os.path.exists(os.path.join(user, "build", "default.yaml")):
             continue
+        deployed = os.path.exists(os.path.join(user, "build", sid + ".schema.yaml"))
+        if repl == "unmutated" and not deployed:
+            raise RuntimeError("the unmutated synthetic schema %s does not deploy: the mutation corpus is broken\n%s" % (sid, out[-1500:]))
+        n_deployed += 1 if deployed else 0
         alpha = "abcdefg" if sid == "vtab" else "abcdeghilnoqrstuvxyz"
         for j in range(2 if quick else 3):
             jobs.append(("m%d-%d" % (k, j), shared, os.path.join(user, "build"),
@@ -288,7 +293,8 @@ def run(ctx):
                 "list iteration, options, schema switches incl. unknown ids, dead and never-issued ids, every free twice) on the stock schemas and on "
                 "schemas obtained by replacing ONE node of a synthetic script/table schema by a node of another type (null/scalar/list/map); "
                 "distinct = distinct (schema, mutated path, replacement kind)",
-        "schema_mutants_available": len(allm), "schema_mutants_run": len(chosen) - 2, "deploy_crashes_recorded_not_judged": deploy_crashes[:10],
+        "schema_mutants_available": len(allm), "schema_mutants_run": len(chosen) - 2,
+        "schemas_whose_compiled_config_was_produced": n_deployed, "deploy_crashes_recorded_not_judged": deploy_crashes[:10],
         "crash_classes": seen,
         "samples": [{"schema": j[4], "script_head": j[3][:12]} for j in jobs[:3]],
         "exhaustive": False, "mutation_drills": MUTATION_DRILLS,
